@@ -4,6 +4,8 @@ From Coq Require Import ZArith List Bool Lia.
 Import ListNotations.
 From TD Require Import Spec.PySlice Spec.C16_ObjArray Model.C16_NonTensor.
 From TD Require Import Proofs.C16_BasicsP Proofs.C16_StackP Proofs.C16_SpecP Proofs.C16_IndexP Proofs.C16_TolistP Proofs.C16_AssignP Proofs.C16_MiscP.
+From TD Require Import Model.C16_ShapeOps Proofs.C16_ShapeOpsP.
+From TD Require Spec.C02_TorchShape Model.C02_ShapeOps Proofs.C02_OpsP.
 Open Scope nat_scope.
 
 (* maybe_to_stack / from_nontensordata change the representation, never the array *)
@@ -165,6 +167,56 @@ Theorem C16_to_dict_rowmajor : forall d l sh t,
 Proof. exact to_dict_stack. Qed.
 Print Assumptions C16_to_dict_rowmajor.
 
+(* shape operations (view, reshape, permute, transpose, squeeze, squeeze(dim), unsqueeze, flatten, unflatten, expand, repeat,
+   repeat_interleave(dim)) on a NonTensorData - a shared payload with a batch size: the call goes to the entry's tensordict
+   without entries (the code C02 transcribes: Model/C02_ShapeOps.apply) and the payload is shared.  For every rank, every
+   argument torch accepts for that shape (every dim incl. negative, every permutation, every target shape incl. -1) in
+   tensordict's documented domain (C02's in_domain: no rank-0 transpose / squeeze(dim) / repeat_interleave, flatten start < end,
+   one repeat count per dim): the result is a NonTensorData of torch's result shape holding, at every position, the object
+   that every position of the source holds - in particular the one torch's element map selects.
+   This is the statement C16_shape_op_full_statement restricted to Shared entries (the _partial one). *)
+Theorem C16_shape_op_shared_partial : forall o p sh r,
+  C02_OpsP.in_domain o (zs sh) -> C02_OpsP.torch_shape o (zs sh) = C02_TorchShape.Ok r ->
+  exists y, shape_op o (Shared p sh) = SOk y /\ shape y = Some (ns r) /\ wf y = true /\
+            forall R I, in_range (ns r) R = true -> in_range sh I = true -> denote y R = denote (Shared p sh) I.
+Proof. exact shared_op_denote. Qed.
+Print Assumptions C16_shape_op_shared_partial.
+
+(* the representation: still one shared object *)
+Theorem C16_shape_op_shared_repr : forall o p sh r,
+  C02_OpsP.in_domain o (zs sh) -> C02_OpsP.torch_shape o (zs sh) = C02_TorchShape.Ok r ->
+  shape_op o (Shared p sh) = SOk (Shared p (ns r)).
+Proof. exact shared_op_spec. Qed.
+Print Assumptions C16_shape_op_shared_repr.
+
+(* the full statement (every well-formed entry, stacks included) is FALSE of the code (finding C16-i): on a NonTensorStack
+   `reshape` to a shape that neither merges nor splits dims returns an entry without payloads, `view` raises *)
+Definition C16_shape_op_full_statement : Prop := shape_op_full_statement.
+Theorem C16_shape_op_reshape_stack_refuted :
+  exists x sh tgt r, wf x = true /\ shape x = Some sh /\
+    C02_OpsP.torch_shape (C02_ShapeOps.OReshape tgt) (zs sh) = C02_TorchShape.Ok r /\
+    shape_op (C02_ShapeOps.OReshape tgt) x = SLost (ns r).
+Proof. exists witness_stack, [2; 3], [3; 2]%Z, [3; 2]%Z. exact reshape_stack_refuted. Qed.
+Print Assumptions C16_shape_op_reshape_stack_refuted.
+Theorem C16_shape_op_view_stack_refuted :
+  exists x sh tgt r, wf x = true /\ shape x = Some sh /\
+    C02_OpsP.torch_shape (C02_ShapeOps.OView tgt) (zs sh) = C02_TorchShape.Ok r /\
+    shape_op (C02_ShapeOps.OView tgt) x = SRaised.
+Proof. exists witness_stack, [2; 3], [-1; 2]%Z, [3; 2]%Z. exact view_stack_refuted. Qed.
+Print Assumptions C16_shape_op_view_stack_refuted.
+Theorem C16_shape_op_full_statement_refuted : ~ C16_shape_op_full_statement.
+Proof. exact full_statement_refuted. Qed.
+Print Assumptions C16_shape_op_full_statement_refuted.
+
+(* NonTensorStack.from_list then tolist is the identity on nested lists of uniform depth d without empty levels, and the
+   entry has batch rank d; to_dict of that entry (after the repair of D20) gives the nested list of payloads *)
+Theorem C16_from_list_tolist : forall d t, uniform d t -> exists x, from_list t = Ok x /\ rank x = d /\ tolist x = Ok t.
+Proof. exact from_list_tolist. Qed.
+Print Assumptions C16_from_list_tolist.
+Theorem C16_from_list_to_dict : forall d t, uniform (S d) t -> exists x, from_list t = Ok x /\ to_dict x = Ok (GList t).
+Proof. exact from_list_to_dict. Qed.
+Print Assumptions C16_from_list_to_dict.
+
 (* non-vacuity *)
 Example C16_ex_index :
   let x := Stack 1 [Shared 1%Z [3]; Stack 0 [Shared 2%Z []; Shared 3%Z []; Shared 2%Z []]] in
@@ -219,3 +271,23 @@ Example C16_ex_repaired_c :
   cat_entries_f false [Stack 0 [Shared 1%Z []]; Shared 2%Z [1]] 0 = Raised /\
   cat_entries = cat_entries_f true.
 Proof. repeat split; vm_compute; reflexivity. Qed.
+Example C16_ex_shape_ops :
+  C02_OpsP.in_domain (C02_ShapeOps.OFlatten 0%Z (-1)%Z) (zs [2; 1; 3]) /\
+  C02_OpsP.torch_shape (C02_ShapeOps.OFlatten 0%Z (-1)%Z) (zs [2; 1; 3]) = C02_TorchShape.Ok [6]%Z /\
+  shape_op (C02_ShapeOps.OFlatten 0%Z (-1)%Z) (Shared 7%Z [2; 1; 3]) = SOk (Shared 7%Z [6]) /\
+  shape_op (C02_ShapeOps.OView [-1; 2]%Z) (Shared 7%Z [2; 1; 3]) = SOk (Shared 7%Z [3; 2]) /\
+  shape_op (C02_ShapeOps.OPermute [-1; 0; 1]%Z) (Shared 7%Z [2; 1; 3]) = SOk (Shared 7%Z [3; 2; 1]) /\
+  shape_op (C02_ShapeOps.OExpand [2; 2; 2; 3]%Z) (Shared 7%Z [2; 1; 3]) = SOk (Shared 7%Z [2; 2; 2; 3]) /\
+  shape_op (C02_ShapeOps.ORepeat [2; 1; 2]%Z) (Shared 7%Z [2; 1; 3]) = SOk (Shared 7%Z [4; 1; 6]) /\
+  shape_op (C02_ShapeOps.OSqueeze None) (Shared 7%Z [2; 1; 3]) = SOk (Shared 7%Z [2; 3]) /\
+  (* quirk kept: a target torch refuses (6 elements viewed as 7) is accepted, the entry's tensordict has no tensor to refuse it *)
+  shape_op (C02_ShapeOps.OView [7]%Z) (Shared 7%Z [2; 1; 3]) = SOk (Shared 7%Z [7]) /\
+  shape_op (C02_ShapeOps.OExpand [5; 1; 3]%Z) (Shared 7%Z [2; 1; 3]) = SRaised /\
+  in_range [6] [4] = true /\ in_range [2; 1; 3] [1; 0; 1] = true.
+Proof. split; [split; [discriminate | vm_compute; reflexivity]|]. repeat split; vm_compute; reflexivity. Qed.
+Example C16_ex_from_list :
+  let t := Node [Node [Leaf 1%Z; Leaf 2%Z]; Node [Leaf 3%Z; Leaf 1%Z]] in
+  uniform 2 t /\
+  from_list t = Ok (Stack 0 [Stack 0 [Shared 1%Z []; Shared 2%Z []]; Stack 0 [Shared 3%Z []; Shared 1%Z []]]) /\
+  from_list (Node []) = Raised.
+Proof. cbn. repeat split; try discriminate; repeat constructor; discriminate. Qed.
